@@ -87,7 +87,7 @@ def scale_for(m, thr, rmax):
     """Largest power-of-two scale for which every product of the integer judge stays below 2^30."""
     g = F(m["GN"], m["GD"])
     B = F(max(rewards_bound(m), abs(rmax), 1)) / (1 - g)
-    sc = 2 ** 10
+    sc = 2 ** 6           # slow-mixing family (gamma = 999/1000, Vmax = 1000 rmax): 2^7 is what fits
     if 8 * B * sc * thr * m["GD"] > 2 ** 30:
         return None
     while sc < 2 ** 24 and 8 * B * (sc * 2) * thr * m["GD"] <= 2 ** 30:
@@ -170,7 +170,56 @@ def make_cases(rng, n, n_special):
             cases.append(make_case(rng, shape="learner-reused-on-same-shape-mdp"))
         for _ in range(10):
             cases.append(make_case(rng, neartie=True))
+    for _ in range(2 * n_special):          # few: every planning call takes thousands of sweeps
+        cases.append(make_slow_case(rng))
     return cases
+
+
+def make_slow_case(rng):
+    """Slow-mixing family: discount 99/100 or 999/1000, 1-2 non-absorbing states that loop (on themselves or among
+    each other) with probability 3/4 per step and pay less than rmax there, thresholds 1-2: the empirical model of the
+    known pairs is (nearly) a closed loop, so one planning call needs thousands of sweeps."""
+    GN, GD = rng.choice([(999, 1000), (999, 1000), (999, 1000), (99, 100)])
+    n_na, K = rng.choice([1, 1, 2]), rng.choice([1, 1, 2])
+    N = n_na + 1
+    cyc = n_na == 2 and rng.random() < 0.5
+    exit_r = rng.choice([0, 1])
+    P = [[[0] * N for _ in range(K)] for _ in range(N)]
+    R = [[[0] * N for _ in range(K)] for _ in range(N)]
+    for s in range(n_na):
+        for a in range(K):
+            loop_to = (1 - s) if cyc else s
+            out_to = n_na if (cyc or s == n_na - 1) else s + 1
+            P[s][a][loop_to] += 3
+            P[s][a][out_to] += 1
+            R[s][a][loop_to] = -1 if exit_r == 0 else rng.choice([0, -1])
+            R[s][a][out_to] = exit_r if out_to == n_na else rng.choice([-1, 0])
+    for a in range(K):
+        P[n_na][a][n_na] = 4
+    m = {"N": N, "K": K, "PD": 4, "GN": GN, "GD": GD, "ID": 1, "abs": [0] * n_na + [1],
+         "avail": [[1] * K for _ in range(N)], "P": P, "R": R, "p0": [1] + [0] * (N - 1)}
+    rep = dict(REPS[rng.randrange(len(REPS))])
+    cfg = {"thr": rng.choice([1, 1, 2]), "episodes": rng.choice([3, 5, 8]), "seed": rng.randrange(10 ** 6),
+           "diff": list(rng.choice([(1, 100000), (1, 1000), (1, 100)])), "reuse": 0}
+    return {"m": m, "rep": rep, "cfg": cfg, "shape": "slow-mixing"}
+
+
+def sweeps_needed(t, cnt, tcnt, diff, cap=3000):
+    """Sweeps a planning call started at the optimistic table needs on the final model (vacuity guard only)."""
+    N, K, thr = t["N"], t["K"], t["thr"]
+    g = t["GN"] / t["GD"]
+    vmax = t["rmax"] / (1 - g)
+    q = [[vmax] * K for _ in range(N)]
+    known = [(s, a) for s in range(N) for a in range(K) if cnt[s][a] >= thr]
+    for k in range(cap):
+        v = [max(row) for row in q]
+        new = {(s, a): sum(tcnt[s][a][n] / thr * (t["R"][s][a][n] + g * v[n]) for n in range(N) if tcnt[s][a][n])
+               for s, a in known}
+        if all(abs(q[s][a] - x) < diff for (s, a), x in new.items()):
+            return k
+        for (s, a), x in new.items():
+            q[s][a] = x
+    return cap
 
 
 def real_instance(case):
@@ -438,7 +487,7 @@ def to_trace(case, out, tag):
     eps = F(1, EPSD) if case.get("RE") else F(0)
     rec.update(thr=thr, rmax=rmax, SC=sc, DQ=math.ceil(diff * sc), EQ=math.ceil(eps * sc), actrule="code", tag=tag,
                TC=math.ceil(1024 * (diff + eps + F(3, sc)) / (1 - g)) + 3,
-               orc=1 if oracle_feasible(m, thr, rmax) else 0, ev=ev)
+               orc=1 if sc >= 1024 and oracle_feasible(m, thr, rmax) else 0, ev=ev)   # FarAt works in 1/1024 units
     if case.get("RE"):
         rec["RE"] = case["RE"]          # not read by the spec (it widens the residual tolerance by EQ instead)
     return rec, raw
@@ -762,6 +811,10 @@ def judge_cases(ctx, cases, *, mutate=None, confirm=True):
                 ctx.count("returned_rows_with_unequal_near_tie_at_the_top")
         if c["cfg"].get("reuse"):
             ctx.count(f"reuse_runs_judged:{c['cfg']['reuse']}")
+        if c.get("shape") == "slow-mixing":
+            ctx.count("slow_mixing_runs_judged")
+            if sweeps_needed(t, cnt, tcnt, float(diff)) > 1000:
+                ctx.count("slow_mixing_runs_whose_final_model_needs_over_1000_sweeps")
         if t["orc"] == 0:
             ctx.count("runs_without_exact_oracle(>3 non-absorbing states or magnitude)")
         ctx.sample({"instance": {k: t[k] for k in ("N", "K", "PD", "GN", "GD", "abs", "P", "R", "p0")},
@@ -827,7 +880,8 @@ def run(ctx):
                 "absorbing states, 1-3 actions, gamma in {1/2,3/4,9/10}) x threshold 1..5 x episodes 1..20 x seed x "
                 "tolerance x representation, plus reuse histories (the judged run is the second train_on of one learner object, "
                 "after the same MDP / another MDP of the same shape / of another shape), a near-tie family (duplicate action "
-                "with rewards 2^-20 lower, greedy clause decided on exact float ranks) and explicit state lists with "
+                "with rewards 2^-20 lower, greedy clause decided on exact float ranks), a slow-mixing family (gamma 99/100 and "
+                "999/1000, looping known part, thousands of planning sweeps per call) and explicit state lists with "
                 "unreachable states; non-trivial = at least one pair reached the threshold (value iteration ran) "
                 "and at least one pair of a visited state is still below it at return, so both value clauses bind")
     ctx.assumptions = [
